@@ -18,7 +18,12 @@ impl Grid {
         Grid { name, evaluations: 0, distinct: BTreeSet::new(), samples: vec![], violations: vec![], notes: vec![], rule: rule.to_string(), exhaustive: true, extra: J::obj() }
     }
     /// count one evaluated case; `class` names its equivalence class for the distinct count
+    /// announce the case about to be executed (crash attribution)
+    pub fn begin(&self, case: &str) {
+        vrt::crash::set_inflight(&format!("{} :: {}", self.name, case));
+    }
     pub fn case(&mut self, class: String, sample: impl FnOnce() -> String) {
+        vrt::crash::set_inflight(&format!("{} :: {}", self.name, class));
         self.evaluations += 1;
         let fresh = self.distinct.insert(class);
         if fresh && (self.samples.len() < 8) && (self.distinct.len() % 37 == 1 || self.samples.len() < 2) {
